@@ -3,6 +3,8 @@ import PflDrv.Json
 import Pfl.Model.CFG
 import Pfl.Oracle.CfgMem
 import Pfl.Oracle.Trees
+import Pfl.Model.BarHillel
+import PflDrv.FA
 open Lean Pfl
 namespace PflDrv
 
@@ -104,6 +106,13 @@ def cfgHandle (op : String) (j : Json) : R Json := do
     let lines ← (← asArr (← field j "lines")).mapM fun l => do (← asArr l).mapM asSym
     let w ← asStrList (← field j "word")
     pure (jBool (G.derivationValid left root lines w))
+  | "cfg.interD" =>
+    let D ← asENFA (← field j "D")
+    let symNames ← asStrList (← field j "symNames")
+    let stateNames ← asStrList (← field j "stateNames")
+    let symOf : String → Option Nat := fun c => (symNames.zip (List.range symNames.length)).findSome?
+      fun e => if e.1 = c then some e.2 else none
+    pure (jOpt jCFG (G.interD D symOf (fun q => stateNames.getD q s!"?{q}") 10))
   | "cfg.getWords" =>
     let mx ← asOptNat (← field j "max")
     pure (jOpt jWords (G.getWords mx 60))
